@@ -66,6 +66,13 @@ class DictValue(GenericValue):
 
         assert self._old_value is not undefined
 
+        if isinstance(self._ast_node, ast.Dict) and any(
+            key is None for key in self._ast_node.keys
+        ):
+            # dicts with star-expressions are not changed,
+            # the keys can not be mapped to the values of the dict display
+            return
+
         if self._ast_node is None:
             values = [None] * len(self._old_value)
         else:
